@@ -273,6 +273,7 @@ def mujoco_worker(name: str, n: int, seed: int) -> dict:
 
     # non-default observation options: the same option on both sides, observation of the same reset state
     import inspect
+    import re
     D["option_obs"] = []
     variants = []
     for pname, par in inspect.signature(type(env).__init__).parameters.items():
@@ -291,6 +292,69 @@ def mujoco_worker(name: str, n: int, seed: int) -> dict:
         o2 = np.asarray(obs_l(env2, st2), dtype=np.float64)
         declared = tuple(np.asarray(env2.observation_space.low).shape)
         D["option_obs"].append(_dev(o2, g2._get_obs()) if o2.shape == declared else math.inf)
+
+    # non-default NUMERIC parameters (weights, healthy ranges, ...): the same values on both sides; states perturbed around the reset
+    # pose so that they straddle the (now asymmetric) healthy ranges; termination physics-free, reward and components after a step
+    D["param_rew"], D["param_comps"] = [], {}
+    dead_params: list = []
+    pterm_mis = pterm_seen = 0
+    try:
+        gcls = type(g)
+        lsig, gsig = inspect.signature(type(env).__init__).parameters, inspect.signature(gcls.__init__).parameters
+        kw = {}
+        for pname, par in lsig.items():
+            if pname in ("self", "frame_skip") or pname not in gsig:
+                continue
+            dflt = par.default
+            if isinstance(dflt, bool) or dflt is inspect.Parameter.empty:
+                continue
+            if isinstance(dflt, (int, float)) and not isinstance(dflt, bool) and np.isfinite(dflt) and isinstance(gsig[pname].default, (int, float)):
+                kw[pname] = float(dflt) * 1.5 + 0.05
+            elif isinstance(dflt, tuple) and len(dflt) == 2 and all(isinstance(x, (int, float)) for x in dflt) and isinstance(gsig[pname].default, tuple):
+                lo_, hi_ = float(dflt[0]), float(dflt[1])
+                lo2 = lo_ if not np.isfinite(lo_) else (lo_ * 0.4 if lo_ < 0 else lo_ * 1.1 + 0.02)
+                hi2 = hi_ if not np.isfinite(hi_) else (hi_ * 0.85 if hi_ > 0 else hi_ * 1.2 - 0.02)
+                if lo2 < hi2:
+                    kw[pname] = (lo2, hi2)
+        kw.pop("reset_noise_scale", None)
+        # a parameter Gymnasium accepts and stores but never reads (HumanoidStandup-v5 `uph_cost_weight`: its documentation
+        # multiplies the upward term by it, its code does not) is no reference for anything: leave it at the default
+        gsrc = inspect.getsource(gcls)
+        dead = sorted(k for k in kw if len(re.findall(r"self\._%s\b" % re.escape(k), gsrc)) <= 1)
+        for k in dead:
+            kw.pop(k)
+        dead_params[:] = dead
+        if kw:
+            g3 = gym.make(f"{name}-v5", **kw).unwrapped
+            env3 = type(env)(**kw)
+            for i in range(n):
+                g3.reset(seed=seed + 900 + i)
+                qpos, qvel = g3.data.qpos.copy(), g3.data.qvel.copy()
+                for j in range(m.njnt):
+                    t, qa = int(m.jnt_type[j]), int(m.jnt_qposadr[j])
+                    if t == 0:
+                        qpos[qa + 2] += rng.uniform(-0.6, 0.6)
+                    elif t in (2, 3) and rng.random() < 0.6:
+                        qpos[qa] += rng.uniform(-1.2, 1.2)
+                qpos = canonical(qpos)
+                g3.data.ctrl[:] = 0
+                g3.set_state(qpos, qvel)
+                st = place(env3, jnp.asarray(qpos, jnp.float32), jnp.asarray(qvel, jnp.float32))
+                a = rng.uniform(g3.action_space.low, g3.action_space.high).astype(np.float32)
+                _, r_g, t_g, _, info_g = g3.step(a)
+                _, _, r_l, _, info_l = lstep(env3, st, jnp.asarray(a))
+                cg = float(info_g.get(contact_key, 0.0)) if contact_key else 0.0
+                cl = float(info_l.get(contact_key, 0.0)) if contact_key else 0.0
+                D["param_rew"].append(_dev(float(r_l) - cl, float(r_g) - cg))
+                for key, v in info_g.items():
+                    if key in info_l and np.ndim(v) == 0 and key != contact_key:
+                        D["param_comps"].setdefault(key, []).append(_dev(info_l[key], v))
+                if np.all(np.isfinite(g3.data.qpos)) and np.all(np.isfinite(g3.data.qvel)):
+                    st_g = place(env3, jnp.asarray(canonical(g3.data.qpos), jnp.float32), jnp.asarray(g3.data.qvel, jnp.float32))
+                    pterm_seen += int(bool(t_g))
+                    pterm_mis += int(bool(term_l(env3, st_g)) != bool(t_g))
+    except TypeError:
+        kw = {}                                        # a parameter Gymnasium does not accept in this form: nothing to compare with
 
     def judge(vals, physics: bool) -> bool:
         if not vals:
@@ -315,13 +379,18 @@ def mujoco_worker(name: str, n: int, seed: int) -> dict:
         "RewardComponentsAreGymnasiums": bool(comps_ok),
         "TerminationIsGymnasiums": term_mis == 0,
     }
+    if kw:
+        atoms["RewardUnderNonDefaultParametersIsGymnasiums"] = bool(judge(D["param_rew"], True) and all(
+            judge(v, key not in physics_free) for key, v in D["param_comps"].items()))
+        atoms["TerminationUnderNonDefaultParametersIsGymnasiums"] = pterm_mis == 0
     if name in HAS_CFRC:
         # a contact that exists in MuJoCo C only (marginal penetration) is possible for a single sample; forces that are never
         # computed are missing in every sample
         atoms["ContactForcesArePresentWhenGymnasiumReportsThem"] = bool(cf_seen == 0 or cf_missing <= cf_seen // 2)
         atoms["ContactCostFollowsGymnasiumsFormula"] = cf_formula <= 1e-3
     stats = {"samples": n, "terminated_in_gym": term_seen, "termination_mismatches": term_mis, "contact_samples": cf_seen,
-             "contact_missing": cf_missing, "contact_formula_dev": cf_formula,
+             "contact_missing": cf_missing, "contact_formula_dev": cf_formula, "parameters_gymnasium_never_reads": dead_params, "non_default_parameters": {k: (list(v) if isinstance(v, tuple) else v) for k, v in kw.items()},
+             "terminated_under_non_default_parameters": pterm_seen, "termination_mismatches_under_non_default_parameters": pterm_mis,
              "q25": {k: float(np.quantile(v, 0.25)) for k, v in D.items() if isinstance(v, list) and v},
              "median": {k: float(np.median(v)) for k, v in D.items() if isinstance(v, list) and v},
              "max": {k: float(np.max(v)) for k, v in D.items() if isinstance(v, list) and v},
